@@ -180,6 +180,44 @@ func pngWithBigICC(tag byte) []byte {
 	return append(b, chunk("IEND", nil)...)
 }
 
+// bigHeaderJPEG: SOI, an APP1 segment of pad bytes, an ICC profile of iccLen
+// bytes split over as many APP2 chunks as needed, then the frame header.
+func bigHeaderJPEG(tag byte, pad, iccLen int) []byte {
+	b := []byte("\xff\xd8")
+	seg := func(marker byte, data []byte) {
+		n := len(data) + 2
+		b = append(b, 0xff, marker, byte(n>>8), byte(n))
+		b = append(b, data...)
+	}
+	p := make([]byte, pad)
+	for i := range p {
+		p[i] = tag + byte(i)
+	}
+	seg(0xe1, p)
+	prof := make([]byte, iccLen)
+	for i := range prof {
+		prof[i] = tag ^ byte(i*13)
+	}
+	const max = 65519
+	total := (iccLen + max - 1) / max
+	for k := 0; k < total; k++ {
+		end := (k + 1) * max
+		if end > iccLen {
+			end = iccLen
+		}
+		seg(0xe2, append([]byte("ICC_PROFILE\x00"+string([]byte{byte(k + 1), byte(total)})), prof[k*max:end]...))
+	}
+	return append(b, []byte("\xff\xc0\x00\x11\x08\x00\x20\x00\x30\x03\x01\x22\x00\x02\x11\x01\x03\x11\x01\xff\xda\x00\x0c\x03\x01\x00\x02\x11\x03\x11\x00\x3f\x00\x00")...)
+}
+
+// badICCPPNG: a PNG whose iCCP payload is not a zlib stream, with chunks after it.
+func badICCPPNG() []byte {
+	b := pngWithICC(0x55)
+	i := bytes.Index(b, []byte("p\x00\x00"))
+	b[i+3], b[i+4] = 0, 0
+	return b
+}
+
 func tinyWebP() []byte {
 	return []byte("RIFF\x1a\x00\x00\x00WEBPVP8L\x0d\x00\x00\x00\x2f\x13\x40\x02\x10\x01\x02\x03\x04\x05\x00\x00\x00")
 }
@@ -349,7 +387,7 @@ func scenarios() []scenario {
 		// one column, more rows than a plausible band or batch size (8, 16, 32) plus a remainder
 		{1, 17, 2, false}, {1, 35, 3, false},
 		// ... and fewer bands of such a size than workers
-		{1, 17, 4, false}, {1, 35, 5, false}} {
+		{1, 17, 4, false}, {1, 35, 5, false}, {1, 9, 2, true}, {1, 9, 3, false}} {
 		sh := sh
 		out = append(out, scenario{fmt.Sprintf("image/linear.TransformImageColor halve %dx%d parallelism %d in place=%v", sh.w, sh.h, sh.p, sh.inPlace), par(func() string { return shaped(sh.w, sh.h, sh.p, sh.inPlace) })})
 	}
@@ -409,6 +447,14 @@ func scenarios() []scenario {
 		scenario{"meta/autometa.Load x2 png with iCCP", par(loadString(autometa.Load, pngWithICC(0x21)), loadString(autometa.Load, pngWithICC(0x93)))},
 		scenario{"meta/pngmeta.Load with a 24 KB incompressible iCCP", par(loadString(pngmeta.Load, pngWithBigICC(0x31)))},
 		scenario{"meta/two pngmeta.Load with 24 KB incompressible iCCP", par(loadString(pngmeta.Load, pngWithBigICC(0x41)), loadString(autometa.Load, pngWithBigICC(0xA3)))},
+		// inputs on the far side of the loaders' buffer sizes, and malformed inputs (the
+		// recover paths run too)
+		scenario{"meta/two jpegmeta.Load, 5 KB of APP1 before the ICC chunk and the frame header", par(loadString(jpegmeta.Load, bigHeaderJPEG(0x15, 5000, 600)), loadString(autometa.Load, bigHeaderJPEG(0x85, 5000, 600)))},
+		scenario{"meta/jpegmeta.Load vs autometa.Load, 70 KB ICC profile in two chunks", par(loadString(jpegmeta.Load, bigHeaderJPEG(0x25, 10, 70000)), loadString(autometa.Load, bigHeaderJPEG(0x95, 10, 70000)))},
+		scenario{"meta/autometa.Load x3 malformed: short SOF, iCCP that is not zlib, RIFF cut short", par(
+			loadString(autometa.Load, []byte("\xff\xd8\xff\xe0\x00\x04JF\xff\xc0\x00\x04\x08\x00\xff\xda\x00\x02")),
+			loadString(autometa.Load, badICCPPNG()),
+			loadString(autometa.Load, []byte("RIFF\x40\x00\x00\x00WEBPVP8X\x0a\x00\x00\x00\x20\x00\x00\x00\x10\x00\x00\x10\x00\x00ICCP\x30\x00\x00\x00abc")))},
 		scenario{"meta/two jpegmeta.Load", par(loadString(jpegmeta.Load, tinyJPEG()), loadString(jpegmeta.Load, tinyJPEG()))},
 		scenario{"meta/two jpegmeta.Load multi-chunk ICC", par(loadString(jpegmeta.Load, twoChunkJPEG(0x10)), loadString(jpegmeta.Load, twoChunkJPEG(0x80)))},
 		scenario{"meta/autometa.Load x2 multi-chunk ICC", par(loadString(autometa.Load, twoChunkJPEG(0x20)), loadString(autometa.Load, twoChunkJPEG(0x90)))},
